@@ -104,7 +104,7 @@ func (s server) RoundTrip(q *http.Request) (*http.Response, error) {
 
 func main() {
 	wit.Quiet()
-	wit.EnsureMetrics(nil)
+	wit.ProdMetrics() // as the shipped binary runs by default
 	b, err := os.ReadFile(os.Args[1])
 	if err != nil {
 		os.Exit(2)
